@@ -4,6 +4,7 @@ package main
 
 import (
 	"context"
+	"sync/atomic"
 	"crypto/sha256"
 	"encoding/hex"
 	"encoding/json"
@@ -40,11 +41,16 @@ var solvers = []solverDef{
 
 const solverVersions = "z3-new=5.1.0;z3=4.8.12;cvc5=1.0.3;v3"
 
+var fileSeq int64
 var cacheDir = ""
 var noCache = os.Getenv("VERIF_NOCACHE") == "1"
 var scratchDir = ""
 
+var scratchMu sync.Mutex
+
 func scratch() string {
+	scratchMu.Lock()
+	defer scratchMu.Unlock()
 	if scratchDir == "" {
 		d, err := os.MkdirTemp("", "govc-")
 		if err != nil {
@@ -98,7 +104,7 @@ func Solve(script string, timeoutS int, which []string) SolveResult {
 			}
 		}
 	}
-	file := filepath.Join(scratch(), key[:24]+".smt2")
+	file := filepath.Join(scratch(), fmt.Sprintf("%s-%d.smt2", key[:24], atomic.AddInt64(&fileSeq, 1)))
 	if err := os.WriteFile(file, []byte(script), 0o644); err != nil {
 		return SolveResult{Status: "error", Output: err.Error()}
 	}
